@@ -13,7 +13,7 @@ func init() {
 		"(R1) parseGetEntriesRange rejects unparsable, negative and inverted ranges and a rejected range can reach no backend call (status 400); "+
 		"(R2) linear identities of the range arithmetic on every branch combination: untruncated ⇒ end unchanged; truncated ⇒ end = start + max − 1 (so end − start + 1 = max); alignment applied only under (align ∧ count ≥ max) and then end' = end − ((end + 1) mod max); the returned start is the parsed start; the backend is asked for StartIndex = start, Count = end + 1 − start on this log; "+
 		"(R4) tree-too-small ⇒ 400, surplus leaves ⇒ 500, any leaf whose index ≠ start + i ⇒ 500, garbled root ⇒ 500 before the success return; "+
-		"(R5) entry i of the response is {leaf_input ← leaves[i].LeafValue, extra_data ← leaves[i].ExtraData} of the same leaf, appended in slice order from the backend's reply; get-entry-and-proof relays the same two fields; "+
+		"(R5) entry i of the response is {leaf_input ← leaves[i].LeafValue, extra_data ← leaves[i].ExtraData} of the same leaf, appended in slice order from the backend's reply; get-entry-and-proof relays the same two fields; both facts are decided on whichever function issues the RPC / builds the entries (the handler or the one function it calls for it), and the leaves relayed went through FixLogLeaf there, completely and before their extra data is read, its failure blocking success; "+
 		"(R6) the entry decoder reads leaf_input as MerkleTreeLeaf and extra_data as the chain structure the writer used for that entry type, and clients index entries start + i and send start/end under their RFC names. "+
 		"(R2 also) every observed value of the range arithmetic stays within int64 for all start / end / maxima ≥ 1 (Fourier–Motzkin entailment per path) and the request Count is in [1, max]. "+
 		"NOT covered: that the backend returns what was stored, JSON/base64 fidelity (stdlib), maxima < 1.",
@@ -139,8 +139,8 @@ func runC07(r *Run) {
 
 	if fn := r.Fn("trillian/ctfe.getEntries"); fn != nil {
 		r.Rule("C07.R1")
-		rpc := asInstrs(CallsTo(fn, "trillian/ctfe.rpcGetLeavesByRange"))
-		rpc = append(rpc, asInstrs(CallsTo(fn, "iface(trillian.TrillianLogClient).*"))...)
+		// backend calls: the RPCs the handler issues itself and its calls of functions of the package that issue one
+		rpc := asInstrs(c08BackendCalls(fn))
 		r.FailEdge(fn, "getEntries", EdgeSpec{Name: "bad-range", Atom: nilAtom("trillian/ctfe.parseGetEntriesRange(*)#2"), Bad: "non", Want: wantStatus("400"), Unreach: rpc})
 		r.MustGuard(fn, "getEntries:range-checked-before-backend", "nil?trillian/ctfe.parseGetEntriesRange(*)#2", "non", rpc, "backend call")
 		if c := r.OneCall(fn, "getEntries:parse", "trillian/ctfe.parseGetEntriesRange"); c != nil {
@@ -148,8 +148,12 @@ func runC07(r *Run) {
 			r.ExpectArg(c, "getEntries:parse.max", 1, "g:trillian/ctfe.MaxGetEntriesAllowed")
 		}
 		r.Rule("C07.R2")
-		if c := r.OneCall(fn, "getEntries:rpc", "trillian/ctfe.rpcGetLeavesByRange"); c != nil {
-			req := CallArgs(c)[2]
+		fetch := c06BackendFetch(r, fn, "getEntries:rpc", "GetLeavesByRange")
+		var req ssa.Value
+		if fetch != nil {
+			req = fetch.request(r, "getEntries:req")
+		}
+		if req != nil {
 			r.ExpectFields(fn, "getEntries:req", req, map[string]string{
 				"LogId":      "p1.logID",
 				"StartIndex": "trillian/ctfe.parseGetEntriesRange(*)#0",
@@ -216,62 +220,29 @@ func runC07(r *Run) {
 			}
 		}
 		r.Rule("C07.R5")
-		if c := r.OneCall(fn, "getEntries:marshal", "trillian/ctfe.marshalGetEntriesResponse"); c != nil {
-			r.ExpectArg(c, "getEntries:marshal.leaves", 1, "trillian/ctfe.rpcGetLeavesByRange(*)#0.Leaves")
-			if j := r.OneCall(fn, "getEntries:json", "json.Marshal"); j != nil {
-				// the value serialised is the response built by marshalGetEntriesResponse
-				a := baseAlloc(CallArgs(j)[0])
-				ok := false
-				if a != nil {
-					for _, st := range r.StoresTo(fn, r.D.allocName(a)) {
-						ok = glob("trillian/ctfe.marshalGetEntriesResponse(*)#0", r.D.D(st.Val))
-					}
-				}
-				r.Check("getEntries:json.value", ok, r.Where(j), "the JSON body is the response returned by marshalGetEntriesResponse")
-				if w := r.OneCall(fn, "getEntries:write", "iface(http.ResponseWriter).Write"); w != nil {
-					r.ExpectArg(w, "getEntries:write.body", 1, "json.Marshal(*)#0")
-				}
-			}
+		if fetch != nil {
+			// the reply the entries are built from is the backend's reply to this request on this log's client
+			fetch.relays(r, short(FuncName(fetch.h)), "p1")
+			// entry i = {LeafValue, ExtraData} of leaf i of that reply, appended in order, served complete —
+			// wherever the loop lives (a function the handler hands the leaves to, or the handler itself)
+			c07Entries(r, fn, fetch)
+			// an entry whose chain could not be restored is never served
+			fetch.chainRestored(r, short(FuncName(fetch.h))+":chain-restored")
 		}
 	}
 	r.Rule("C07.R5")
-	if fn := r.Fn("trillian/ctfe.marshalGetEntriesResponse"); fn != nil {
-		r.ExpectStores(fn, "marshal:leaf_input", "&(new:ct.LeafEntry#*.LeafInput)", "p1[it@*].LeafValue", 1)
-		r.ExpectStores(fn, "marshal:extra_data", "&(new:ct.LeafEntry#*.ExtraData)", "p1[it@*].ExtraData", 1)
-		// both fields come from the same element
-		li := r.StoresTo(fn, "&(new:ct.LeafEntry#*.LeafInput)")
-		ed := r.StoresTo(fn, "&(new:ct.LeafEntry#*.ExtraData)")
-		if len(li) == 1 && len(ed) == 1 {
-			a, b := r.D.D(li[0].Val), r.D.D(ed[0].Val)
-			r.Check("marshal:same-leaf", len(a) > 10 && len(b) > 10 && a[:len(a)-len("LeafValue")] == b[:len(b)-len("ExtraData")], r.Where(li[0]), "leaf_input and extra_data of one entry come from the same backend leaf: "+a+" / "+b)
-		}
-		// appended in order: Entries ← append(Entries, entry)
-		r.ExpectStores(fn, "marshal:append", "&(new:ct.GetEntriesResponse#0.Entries)", "append(new:ct.GetEntriesResponse#0.Entries, new:[1]ct.LeafEntry#0[:])", 1)
-		r.ExpectStores(fn, "marshal:elem", "&(new:[1]ct.LeafEntry#0[0])", "*new:ct.LeafEntry#0", 1)
-		for _, ret := range Returns(fn) {
-			if errKind(ret.Results[1]) == "nil" {
-				r.Check("marshal:returns-response", r.D.D(ret.Results[0]) == "*new:ct.GetEntriesResponse#0", r.Where(ret), "returns the response built in the loop")
-			}
-		}
-	}
 	if fn := r.Fn("trillian/ctfe.getEntryAndProof"); fn != nil {
-		if j := r.OneCall(fn, "getEntryAndProof:json", "json.Marshal"); j != nil {
-			r.ExpectFields(fn, "getEntryAndProof:rsp", CallArgs(j)[0], map[string]string{
-				"LeafInput": "trillian/ctfe.rpcGetEntryAndProof(*)#0.Leaf.LeafValue",
-				"ExtraData": "trillian/ctfe.rpcGetEntryAndProof(*)#0.Leaf.ExtraData",
-				"AuditPath": "trillian/ctfe.rpcGetEntryAndProof(*)#0.Proof.Hashes",
-			})
-		}
-	}
-	for _, w := range []string{"trillian/ctfe.rpcGetLeavesByRange", "trillian/ctfe.rpcGetEntryAndProof"} {
-		if fn := r.Fn(w); fn != nil {
-			// an entry whose chain could not be restored is never served
-			r.ErrorsGate(fn, short(w)+":chain-restored", "iface(trillian/ctfe.leafChainBuilder).FixLogLeaf", 1)
-			for _, ret := range Returns(fn) {
-				if errKind(ret.Results[2]) == "nil" {
-					r.Check(short(w)+":returns-reply", glob("iface(trillian.TrillianLogClient).*(p1.rpcClient, p0, p2, nil)#0", r.D.D(ret.Results[0])), r.Where(ret), "returns the backend's reply for the caller's request: "+r.D.D(ret.Results[0]))
-				}
+		if f := c06BackendFetch(r, fn, "getEntryAndProof:rpc", "GetEntryAndProof"); f != nil {
+			if j := r.OneCall(fn, "getEntryAndProof:json", "json.Marshal"); j != nil {
+				r.ExpectFields(fn, "getEntryAndProof:rsp", c06Built(CallArgs(j)[0], j), map[string]string{
+					"LeafInput": f.reply() + ".Leaf.LeafValue",
+					"ExtraData": f.reply() + ".Leaf.ExtraData",
+					"AuditPath": f.reply() + ".Proof.Hashes",
+				})
 			}
+			f.relays(r, short(FuncName(f.h)), "p1")
+			// an entry whose chain could not be restored is never served
+			f.chainRestored(r, short(FuncName(f.h))+":chain-restored")
 		}
 	}
 
